@@ -103,7 +103,7 @@ package util
 //@   assigns nothing
 
 //@ func TypesMap.Add
-//@   props C01 C03 C09 C12 C10 C11
+//@   props C01 C03 C09 C12 C10 C11 C06
 //@   requires tmWF(m)
 //@   assigns m[all], m[pkgPath][all]
 //@   ensures tmWF(m)
@@ -133,7 +133,7 @@ package util
 //@   assigns nothing
 
 //@ func TypeAssociationRegistry.Add
-//@   props C01 C02 C03 C09 C12 C10 C11
+//@   props C01 C02 C03 C09 C12 C10 C11 C06
 //@   requires tarWF(tar)
 //@   assigns tar[all], tar[pkgPath][all]
 //@   ensures tarWF(tar)
@@ -306,12 +306,12 @@ package util
 //@ macro func extBy(after []string, before []string, a string) bool = len(after) == len(before) + 1 && (forall x string :: contains(after, x) <==> (contains(before, x) || x == a))
 
 //@ func TypeAttachments.AddAttachment
-//@   props C04 C12 C10
+//@   props C04 C12 C10 C06
 //@   assigns t.LocalAttachments
 //@   ensures extBy(t.LocalAttachments, old(t.LocalAttachments), attachment)
 
 //@ func TypeAttachments.AddMethodAttachment
-//@   props C04 C12 C10
+//@   props C04 C12 C10 C06
 //@   requires t.MethodsAttachments != nil ==> allocated(t.MethodsAttachments)
 //@   assigns t.MethodsAttachments, t.MethodsAttachments[all]
 //@   ensures t.MethodsAttachments != nil && (old(t.MethodsAttachments) != nil ? t.MethodsAttachments == old(t.MethodsAttachments) : fresh(t.MethodsAttachments))
@@ -319,7 +319,7 @@ package util
 //@   ensures forall m string :: m != method ==> t.MethodsAttachments[m] == old(t.MethodsAttachments[m])
 
 //@ func PackageAttachments.AddFunctionAttachment
-//@   props C04 C12 C10
+//@   props C04 C12 C10 C06
 //@   requires t.FunctionsAttachments != nil ==> allocated(t.FunctionsAttachments)
 //@   assigns t.FunctionsAttachments, t.FunctionsAttachments[all]
 //@   ensures t.FunctionsAttachments != nil && (old(t.FunctionsAttachments) != nil ? t.FunctionsAttachments == old(t.FunctionsAttachments) : fresh(t.FunctionsAttachments))
@@ -327,7 +327,7 @@ package util
 //@   ensures forall f string :: f != funcname ==> t.FunctionsAttachments[f] == old(t.FunctionsAttachments[f])
 
 //@ func PackageAttachments.AddTypeAttachment
-//@   props C04 C12 C10
+//@   props C04 C12 C10 C06
 //@   requires t.TypesAttachments != nil ==> allocated(t.TypesAttachments)
 //@   assigns t.TypesAttachments, t.TypesAttachments[all]
 //@   ensures t.TypesAttachments != nil && (old(t.TypesAttachments) != nil ? t.TypesAttachments == old(t.TypesAttachments) : fresh(t.TypesAttachments))
@@ -348,7 +348,7 @@ package util
 //@ macro func amWF(am *AttachmentsMap) bool = amAlloc(am) && amSepTA(am) && amSepFA(am) && amSepMA(am) && amSepFL(am)
 
 //@ func PackageAttachments.AddTypeMethodAttachment
-//@   props C04 C12 C10
+//@   props C04 C12 C10 C06
 //@   requires t.TypesAttachments != nil ==> allocated(t.TypesAttachments)
 //@   requires allocated(t.TypesAttachments[typename].MethodsAttachments)
 //@   assigns t.TypesAttachments, t.TypesAttachments[all], t.TypesAttachments[typename].MethodsAttachments[all]
@@ -362,7 +362,7 @@ package util
 //@   ensures forall u string :: u != typename ==> t.TypesAttachments[u] == old(t.TypesAttachments[u])
 
 //@ func AttachmentsMap.AddPkgTypeAttachment
-//@   props C04 C12 C10 C11
+//@   props C04 C12 C10 C11 C06
 //@   requires amWF(t)
 //@   assigns t.packageAttachments, t.packageAttachments[all], amTA(t, pkg)[all]
 //@   ensures t.packageAttachments != nil && (old(t.packageAttachments) != nil ? t.packageAttachments == old(t.packageAttachments) : fresh(t.packageAttachments))
@@ -382,7 +382,7 @@ package util
 //@   ensures forall p string, u string, m string, x string :: contains(amMethAtt(t, p, u, m), x) <==> contains(old(amMethAtt(t, p, u, m)), x)
 
 //@ func AttachmentsMap.AddPkgFunctionAttachment
-//@   props C04 C12 C10 C11
+//@   props C04 C12 C10 C11 C06
 //@   requires amWF(t)
 //@   assigns t.packageAttachments, t.packageAttachments[all], amFA(t, pkg)[all]
 //@   ensures t.packageAttachments != nil && (old(t.packageAttachments) != nil ? t.packageAttachments == old(t.packageAttachments) : fresh(t.packageAttachments))
@@ -402,7 +402,7 @@ package util
 //@   ensures forall p string, u string, m string, x string :: contains(amMethAtt(t, p, u, m), x) <==> contains(old(amMethAtt(t, p, u, m)), x)
 
 //@ func AttachmentsMap.AddPkgTypeMethodAttachment
-//@   props C04 C12 C10 C11
+//@   props C04 C12 C10 C11 C06
 //@   requires amWF(t)
 //@   assigns t.packageAttachments, t.packageAttachments[all], amTA(t, pkg)[all], amMA(t, pkg, typename)[all]
 //@   ensures t.packageAttachments != nil && (old(t.packageAttachments) != nil ? t.packageAttachments == old(t.packageAttachments) : fresh(t.packageAttachments))
@@ -480,26 +480,26 @@ package util
 
 // ---- parts of the AttachmentsMap API that no checker uses (package-level and field attachments): thin safety contracts
 //@ func PackageAttachments.AddAttachment
-//@   props C10 C12
+//@   props C10 C12 C06
 //@   assigns t.LocalAttachments
 //@ func TypeAttachments.AddFieldAttachment
-//@   props C10 C12
+//@   props C10 C12 C06
 //@   requires t.FieldsAttachments != nil ==> allocated(t.FieldsAttachments)
 //@   assigns t.FieldsAttachments, t.FieldsAttachments[all]
 //@   ensures t.FieldsAttachments != nil
 //@ func PackageAttachments.AddTypeFieldAttachment
-//@   props C10 C12
+//@   props C10 C12 C06
 //@   requires t.TypesAttachments != nil ==> allocated(t.TypesAttachments)
 //@   requires allocated(t.TypesAttachments[typename].FieldsAttachments)
 //@   assigns t.TypesAttachments, t.TypesAttachments[all], t.TypesAttachments[typename].FieldsAttachments[all]
 //@   ensures t.TypesAttachments != nil
 //@ func AttachmentsMap.AddPkgAttachment
-//@   props C10 C12 C11
+//@   props C10 C12 C11 C06
 //@   requires t.packageAttachments != nil ==> allocated(t.packageAttachments)
 //@   assigns t.packageAttachments, t.packageAttachments[all]
 //@   ensures t.packageAttachments != nil
 //@ func AttachmentsMap.AddPkgTypeFieldAttachment
-//@   props C10 C12 C11
+//@   props C10 C12 C11 C06
 //@   requires t.packageAttachments != nil ==> allocated(t.packageAttachments)
 //@   requires t.packageAttachments[pkg].TypesAttachments != nil ==> allocated(t.packageAttachments[pkg].TypesAttachments)
 //@   requires allocated(t.packageAttachments[pkg].TypesAttachments[typename].FieldsAttachments)
